@@ -803,9 +803,7 @@ class Term:
 
     def occurs_var(self, t: Term) -> Term:
         """Whether the variable t occurs in self."""
-        if self.is_svar():
-            return False
-        if self.is_var():
+        if self.is_svar() or self.is_var():
             return self == t
         elif self.is_const():
             return False
